@@ -16,7 +16,7 @@ JOBS = {
     "J4": ["G1 X1", "G1 X2", "; c", "G1 X3", "G1 X4 (last)"],
     # several layers with a z-hop that returns to an earlier height (lines are appended to an already populated layer)
     # a non-ASCII payload (LCD message): the checksum must be the one the firmware computes over the bytes it receives
-    "J9": ["M117 Héllo wörld", "G1 X1 ; fin"],
+    "J9": ["M117 Héllo ∅", "G1 X1 ; fin"],      # (an even number of Latin-1 letters would cancel out in the XOR)
     "J8": ["G1 Z0.2", "G1 X1 E1", "G1 Z0.6", "G0 X5", "G1 Z0.2", "G1 X6 E2", "G1 Z0.4", "G1 X7 E3"],
 }
 COMMENT_RE = re.compile(r"\([^()]*\)|;.*")
@@ -40,6 +40,8 @@ def run_execution(cfg, prefix, record=False):
     def body():
         sleep = ex.shims.time.sleep
         p = PC.printcore()
+        if cfg.get("tcp_streaming_mode"):
+            p.tcp_streaming_mode = True       # a documented switch that only matters for devices with flow control
         marks["errors"] = []
         p.errorcb = marks["errors"].append
         p.connect("fake", 115200)
@@ -223,6 +225,10 @@ def plan(tier):
                 items.append(({**base, "line_points": True}, 0, None))
                 if corrupt == (1,):
                     items.append(({**base, "line_points": False}, 1, None))
+        for dialect in ("A", "B"):
+            for corrupt in ((), (1,), (2,)):
+                base = {"job": "J3", "dialect": dialect, "greeting": None, "eager": False, "corrupt": corrupt, "tcp_streaming_mode": True}
+                items.append(({**base, "line_points": True}, 0, None))
         for dialect in ("A", "B"):
             for corrupt in ((), (0,)):
                 base = {"job": "J9", "dialect": dialect, "greeting": None, "eager": False, "corrupt": corrupt}
